@@ -311,7 +311,7 @@ def move_next_char(text: str | bytes, start_offs: int, end_offs: int) -> int:
             o += 1
         return o
     if _byte_encoding == "wide" and within_double_byte(text, start_offs, start_offs) == 1:
-        return start_offs + 2
+        return min(start_offs + 2, end_offs)  # a lead byte cut off at the end
     return start_offs + 1
 
 
